@@ -23,7 +23,12 @@ META = {
              "type, chunk size per axis, encoding) and an accessor (deep/flat "
              "x gzip, or sharded); voxels are position-coded. non-trivial = "
              ">= 2 chunks on some axis or a partial border chunk, and >= 2 "
-             "distinct voxel values; distinct by the whole case."),
+             "distinct voxel values; distinct by the whole case."
+             ' Also: big-endian files, conversions requested through the c'
+             'ommand-line entry point, rescaling windows ending at exactly'
+             ' 0, independent index / data shard encodings; sub-check many'
+             '_shards: thousands of one-voxel chunks over more than 1024 s'
+             'hard files.'),
     "trusted_base": ["nibabel writes the input (stored array and header "
                      "scaling re-read and verified as a precondition)",
                      "vlib/refs/dtype_ref.py, Fraction arithmetic"],
